@@ -2,3 +2,5 @@
 import SamVerif.Model.Go
 import SamVerif.Gen.Crc
 import SamVerif.Spec.Crc
+import SamVerif.Props.C12
+import SamVerif.Props.C10
